@@ -239,6 +239,26 @@ fn c14_program(rng: &mut Rng) -> String {
     s
 }
 
+/// identifier pairs that collide under a widely used 32-bit string hash (FNV-1a, FNV-1, djb2, sdbm, one-at-a-time,
+/// ELF/PJW, MurmurHash3, Adler-32, CRC-32, Java's hashCode) or under order-insensitive sums (anagrams): whatever a VM
+/// derives from a name, two different names are two different members / variables / functions
+pub const COLLIDING_NAMES: [(&str, &str); 28] = [
+    ("liquid", "costarring"), ("declinate", "macallums"), ("altarage", "zinke"), ("hjguzui", "rwfikrwl"), ("oshnqyng", "bsfish"), ("hetairas", "mentioner"), ("heliotropes", "neurospora"),
+    ("depravement", "serafins"), ("stylist", "subgenera"), ("bxtqkl", "axgfqha"), ("nibtrrb", "foahe"), ("fqinyeme", "mhzqtv"), ("zqlcyds", "dysgopww"), ("xkpur", "xkpvb"), ("jxcwt", "jwswt"),
+    ("pqbjfr", "sceal"), ("gafgmvn", "pppplwp"), ("vcnxl", "vapzj"), ("icfwsgf", "cczhpnc"), ("plumless", "buckeroo"), ("Aa", "BB"), ("AaAa", "BBBB"), ("AaBB", "BBAa"), ("ab", "ba"), ("listen", "silent"),
+    ("a1b", "a2a"), ("ad", "bc"), ("x_1", "x1_"),
+];
+
+/// One program per pair and role: the two names as methods on different levels of a chain (and the second one missing), as
+/// fields, as globals, as functions, as locals and parameters.
+pub fn collision_program(a: &str, b: &str) -> String {
+    format!(
+        "let base = object begin function {b}(x) -> 2000 + x; let {b} = 20; end;\nlet child = object extends base begin function {a}(x) -> 1000 + x; let {a} = 10; end;\nprint(\"~ ~ ~ ~\\n\", child.{a}(1), child.{b}(2), child.{a}, base.{b});\nlet {a} = 1; let {b} = 2; {a} <- {a} + 10; print(\"~ ~\\n\", {a}, {b});\nfunction f_{a}({a}, {b}) -> begin let l_{a} = {a} * 2; let l_{b} = {b} * 3; l_{a} * 100 + l_{b} end;\nfunction f_{b}(q) -> q + 7;\nprint(\"~ ~\\n\", f_{a}(3, 4), f_{b}(1));\nlet both = object begin let {a} = 5; let {b} = 6; function {a}() -> 7; function {b}() -> 8; end;\nboth.{a} <- 50;\nprint(\"~ ~ ~ ~ ~\\n\", both.{a}, both.{b}, both.{a}(), both.{b}(), both);\nprint(\"before\\n\");\nlet only = object begin function {a}() -> 1; end;\nprint(\"~\\n\", only.{b}());\nprint(\"not reached\\n\");\n",
+        a = a,
+        b = b
+    )
+}
+
 /// method names a value might be expected to answer, but which FML does not define on primitives and arrays
 pub const EXTRA_METHOD_NAMES: [&str; 72] = [
     "length", "len", "size", "count", "push", "pop", "append", "add_all", "insert", "remove", "clear", "first", "last", "head", "tail", "at", "put", "fill", "copy", "clone", "slice", "concat", "reverse", "sort", "map",
@@ -402,6 +422,28 @@ pub fn c14(ctx: &Ctx, rep: &mut Report) {
                     }
                     Err(_) => rep.skip("method name not expressible in source"),
                 }
+            }
+        }
+    }
+    // names that collide under common string hashes, in every role
+    for (a, b) in COLLIDING_NAMES.iter() {
+        for (x, y) in [(a, b), (b, a)].iter() {
+            kb += 1;
+            if !ctx.mine(kb) {
+                continue;
+            }
+            let src = collision_program(x, y);
+            match real::parse(&src) {
+                Ok(ast) => {
+                    let mut rng = ctx.rng("C14collide", kb);
+                    let j = judge(rep, "C14", &format!("colliding-names:{}/{}", x, y), &ast, &src, &mut rng, JudgeOpts::full());
+                    if j.judged {
+                        rep.bump("c14-generator", "hash-colliding names");
+                    } else {
+                        rep.inconsistency(format!("colliding-names program {}/{} is not judged: {:?}", x, y, j.outcome.res));
+                    }
+                }
+                Err(e) => rep.inconsistency(format!("colliding-names program {}/{} does not parse: {}", x, y, e)),
             }
         }
     }
